@@ -1296,5 +1296,71 @@ example : covTh (⟨2, 2, 1, [(0, 1)]⟩ : CovCfg) (vecOf [1, 2, 3, 4, (1 / 2 : 
   simp [CovCfg.base, CovCfg.beta, CovCfg.nPop, vecOf, isum, lsum]
   norm_num
 
+/-! ### rejected selection calls in a history
+
+`CovariatePopulationModel.set_population_parameters` checks the bounds BEFORE it touches the covariate
+model: a caller who catches the error goes on with the wrapper as it was (the harness makes such calls —
+op `X` of the generated histories — and compares names / counts / every evaluation afterwards). -/
+
+/-- `CovariatePopulationModel.set_population_parameters` as a caller meets it inside a `try`: the bounds
+    check comes first; a rejected call leaves the wrapper as it was -/
+def CovModel.trySetPop (m : CovModel) (indices : List (Int × Int)) : CovModel × Bool :=
+  match setPopChecked m.perDim m.nDim indices with
+  | .ok sel => (m.setPop false sel, true)
+  | .error _ => (m, false)
+
+/-- a history of selection calls, accepted or not -/
+def CovModel.tryAll (m : CovModel) (calls : List (List (Int × Int))) : CovModel :=
+  calls.foldl (fun acc ix => (acc.trySetPop ix).1) m
+
+/-- does the bounds check accept these indices (for `perDim` rows, `nDim` columns)? -/
+def selAccepted (perDim nDim : Nat) (indices : List (Int × Int)) : Bool :=
+  match setPopChecked perDim nDim indices with
+  | .ok _ => true
+  | .error _ => false
+
+theorem CovModel.setPop_dims (m : CovModel) (b : Bool) (ix : List Pair) :
+    (m.setPop b ix).perDim = m.perDim ∧ (m.setPop b ix).nDim = m.nDim := ⟨rfl, rfl⟩
+
+theorem CovModel.trySetPop_dims (m : CovModel) (ix : List (Int × Int)) :
+    (m.trySetPop ix).1.perDim = m.perDim ∧ (m.trySetPop ix).1.nDim = m.nDim := by
+  unfold CovModel.trySetPop
+  cases setPopChecked m.perDim m.nDim ix <;> exact ⟨rfl, rfl⟩
+
+/-- a selection with a pair out of range (or an empty one) is rejected and the wrapper — selection,
+    names, parameter count — is exactly what it was -/
+theorem C07_rejected_selection_unchanged (m : CovModel) (indices : List (Int × Int))
+    (hbad : indices = [] ∨ ∃ x ∈ indices, x.1 ≥ m.perDim ∨ x.2 ≥ m.nDim ∨ x.1 < 0 ∨ x.2 < 0) :
+    m.trySetPop indices = (m, false) := by
+  unfold CovModel.trySetPop
+  rcases hbad with h | ⟨x, hx, hb⟩
+  · subst h; rfl
+  · have hne : indices ≠ [] := by
+      intro h; subst h; cases hx
+    rw [C07_setpop_out_of_range m.perDim m.nDim indices hne x hx hb]
+
+/-- for every history of selection calls: the rejected ones can be erased — the wrapper ends up where
+    the accepted calls alone take it -/
+theorem C07_rejected_calls_erased (m : CovModel) (calls : List (List (Int × Int))) :
+    m.tryAll calls = m.tryAll (calls.filter (selAccepted m.perDim m.nDim)) := by
+  induction calls generalizing m with
+  | nil => rfl
+  | cons c cs ih =>
+    have hd := m.trySetPop_dims c
+    unfold CovModel.tryAll at ih ⊢
+    simp only [List.foldl_cons, List.filter_cons]
+    rw [ih, hd.1, hd.2]
+    cases hc : setPopChecked m.perDim m.nDim c with
+    | ok sel =>
+      have : selAccepted m.perDim m.nDim c = true := by unfold selAccepted; rw [hc]
+      simp only [this, if_true, List.foldl_cons]
+    | error e =>
+      have h1 : selAccepted m.perDim m.nDim c = false := by unfold selAccepted; rw [hc]
+      have h2 : (m.trySetPop c).1 = m := by unfold CovModel.trySetPop; rw [hc]
+      simp only [h1, h2]
+      rfl
+
+example : (CovModel.construct 2 2 1 ["Mean", "Std."] ["a", "b"] ["c"]).tryAll [[(0, 0)], [(5, 0)]]
+    = (CovModel.construct 2 2 1 ["Mean", "Std."] ["a", "b"] ["c"]).tryAll [[(0, 0)]] := by decide
 
 end ChiModel
